@@ -21,9 +21,9 @@ import (
 func init() {
 	core.Register(&core.Prop{
 		ID: "C04", Level: "exploration",
-		Rule: "cases are recovery scenarios: a peer history of 6-30 messages (application, Heartbeat, TestRequest) with a lost block of 1-12 numbers (or a gap detected on the Logon itself), chunk size in {0,1,2,3,5,20}, FIX.4.0-4.4 and FIXT.1.1, both roles; the peer answers each ResendRequest with in-order replays and coalesced gap fills, interleaved at random with live messages; plus all (gap<=4, chunk<=3, interleaving) combinations; non-trivial = recovery with a stashed early message and a replay step; distinct by (gap, chunk, order pattern, early-message kinds)",
+		Rule:        "cases are recovery scenarios: a peer history of 6-30 messages (application, Heartbeat, TestRequest) with a lost block of 1-12 numbers (or a gap detected on the Logon itself), chunk size in {0,1,2,3,5,20}, FIX.4.0-4.4 and FIXT.1.1, both roles; the peer answers each ResendRequest with in-order replays and coalesced gap fills, interleaved at random with live messages; plus all (gap<=4, chunk<=3, interleaving) combinations; non-trivial = recovery with a stashed early message and a replay step; distinct by (gap, chunk, order pattern, early-message kinds)",
 		Assumptions: []string{"timer events are not part of this profile (C20)", "exactly-one-request is judged for message kinds whose number is checked before acting (application, Heartbeat, TestRequest, Reject, gap fill, Logon); a too-high ResendRequest/Logout/SequenceReset-Reset is acted on regardless of its number"},
-		FloorQuick: 200, FloorThorough: 2000,
+		FloorQuick:  200, FloorThorough: 2000,
 		Parts: []core.Part{{Name: "recovery", Run: run, Replay: replay}},
 	})
 }
